@@ -81,6 +81,10 @@ def gen_inputs(ctx):
         k = rng.choice(["vec", "vec", "bitvec", "bytevec", "twice"])
         yield {"kind": "defaults", "shape": k, "n": rng.choice([5, 8, 9, 16, 33, 64, 100, 600, 1000]),
                "w": rng.choice([1, 2, 8, 32]), "idx": rng.randrange(0, 1 << 20)}
+    # child views of one value (src[k], container.field, elements while iterating) appended / assigned into another value
+    for i in range(m // 3):
+        yield {"kind": "childshare", "n": rng.choice([1, 2, 3, 5]), "fields": rng.choice([2, 4]), "seed": rng.randrange(1 << 30),
+               "elem": rng.choice(["cont", "list", "vec"])}
     # slice assignment of already hashed composite values (fresh views, or child views sliced out of another list)
     for i in range(m // 3):
         n = rng.choice([2, 3, 4, 5, 7, 8])
@@ -489,7 +493,59 @@ def build_defaults_case(inp):
     return cs
 
 
+def build_childshare_case(inp):
+    """model-free: a composite child view (still hooked to its parent) that is appended / assigned into ANOTHER value is
+    inserted as the very node object it has — no rebuild — and the next root hashes only the changed paths"""
+    import random as _r
+    why = None
+    try:
+        rr = _r.Random(inp["seed"])
+        nf = inp["fields"]
+        et = {"cont": ["cont", [["uint", 8]] * nf], "list": ["list", ["uint", 8], 9], "vec": ["vec", ["uint", 4], 5]}[inp["elem"]]
+        mk = lambda: ([rr.randrange(1, 1 << 30) for _ in range(nf)] if inp["elem"] == "cont" else  # noqa
+                      [rr.randrange(1, 1 << 30) for _ in range(rr.randrange(1, 6))] if inp["elem"] == "list" else
+                      [rr.randrange(1, 1 << 30) for _ in range(5)])
+        src = to_py(["list", et, 16], [mk() for _ in range(4 + inp["n"])])
+        holder = to_py(["cont", [["uint", 8], et]], [7, mk()])
+        src.hash_tree_root()
+        holder.hash_tree_root()
+        dst = to_py(["list", et, 16], [mk() for _ in range(inp["n"])])
+        dst.hash_tree_root()
+        depth = type(dst).tree_depth()
+        moved = []
+        c1 = src[1]
+        dst.append(c1)
+        moved.append((len(dst) - 1, c1.get_backing(), "src[1] appended"))
+        c2 = holder.f1
+        dst.append(c2)
+        moved.append((len(dst) - 1, c2.get_backing(), "a container field appended"))
+        for k, el in enumerate(src):
+            if k >= 2:
+                break
+            dst.append(el)
+            moved.append((len(dst) - 1, el.get_backing(), "an element appended while iterating the source"))
+        c3 = src[3]
+        dst[0] = c3
+        moved.append((0, c3.get_backing(), "src[3] assigned to dst[0]"))
+        for pos, nb, what in moved:
+            if dst.get_backing().getter((1 << depth) | pos) is not nb and why is None:
+                why = "%s: the element was rebuilt instead of sharing the source's subtree" % what
+        with Counter() as c:
+            dst.hash_tree_root()
+            bound = len(moved) * (depth + 1) + 2
+            if c.n > bound and why is None:
+                why = "root after inserting %d hashed child views took %d hashes (bound %d)" % (len(moved), c.n, bound)
+    except Exception as e:  # noqa
+        why = "child-view sharing scenario raised %r" % (e,)
+    cs = Case(inp, "(R \"00\", false, (OpSummarize 1%N), (0%N, 0%N, 0%N))", [True, b"\x00", [], True, True, True, 0], NAMES,
+              nontrivial=True, kind="childshare:" + inp["elem"])
+    cs.why = why
+    return cs
+
+
 def build(inp):
+    if inp["kind"] == "childshare":
+        return build_childshare_case(inp)
     if inp["kind"] == "defaults":
         return build_defaults_case(inp)
     if inp["kind"] == "sliceshare":
